@@ -15,12 +15,14 @@ def engPool (addr : String) (i : Nat) : Option Key :=
   match i with
   | 0 => some ⟨addr, "s/a"⟩ | 1 => some ⟨addr, "s/b"⟩ | 2 => some ⟨addr, "s/c"⟩ | 3 => some ⟨"other:1", "s/x"⟩
   | 5 => some ⟨"other:1", "s/a"⟩      -- foreign address, id of a live local actor
+  | 6 => some ⟨addr ++ "/s", "a"⟩     -- address ++ "/" ++ id equals that of pid 0
+  | 7 => some ⟨(addr.take (addr.length - 1)).toString, (addr.drop (addr.length - 1)).toString ++ "s/a"⟩   -- address ++ id equals that of pid 0
   | _ => none
 
 def engIdx (addr : String) (k : Option Key) : String :=
   match k with
   | none => "-"
-  | some k => match (List.range 6).find? (fun i => engPool addr i = some k) with
+  | some k => match (List.range 8).find? (fun i => engPool addr i = some k) with
     | some i => toString i
     | none => "?"
 
